@@ -115,6 +115,7 @@ contract(
     params={"self": "Bucket", "limit": "int", "starttime": "Optional[datetime]", "endtime": "Optional[datetime]"},
     returns="List[Event]", requires=["handle_ok(self)"],
     ghost_vars={"s2": ("Optional[datetime]", "None"), "e2": ("Optional[datetime]", "None")},
+    ghost_returns={"s2": "Optional[datetime]", "e2": "Optional[datetime]"},        # (the window actually handed to the storage)
     ghost_code=[dict(after="if endtime:", code="s2 = starttime\ne2 = endtime")],
     ensures=[
         # the window handed to the storage is the caller's window widened to whole milliseconds: the start rounded down,
